@@ -1,3 +1,4 @@
+import Props.C04Logic
 import Proofs.EngineDuality
 /-!
 # C04 — Leaf gradients accumulate exactly across any history of backward calls
